@@ -47,6 +47,10 @@ def mir_recovery(cfg):
 
 
 def obligations():
+    return _own() + (common.shared('C12', ['O12.1-commit'], 'O8', 'fork switch: rollback of the index precedes the new last state (a crash in between leaves the old tip with a rolled-back index, which re-syncs)'))
+
+
+def _own():
     return [
         KModelOb('O8.1-set-scripts-crash', 'ufs', 'set_scripts_crash', 'update_filter_scripts (real text) with a crash after any number of its write operations: '
                  'the surviving store satisfies R2 (no registered script below MIN_FILTERED without pending matched blocks)', C09.ex_ufs,
